@@ -124,5 +124,5 @@ Proof. exact sl_timed_walk_sound. Qed.
    state, its caches, the brake and the consist untouched - nothing else ever modifies the simulation *)
 Theorem C11_dispatched_train_is_whole_steps : forall fuel_bp fuel_steps (net : list LinkR) (tp : TPR) tl rp fmax fb st cache (con : ConsistR) x',
   sl_timed_walk fuel_bp fuel_steps net tp tl rp fmax fb st cache con = Ok x' ->
-  tw_trace fmax any_step ({| sl_st := st; sl_cache := cache; sl_fb := fb; sl_idx := 0 |}, con) x'.
+  tw_trace fmax any_pts any_step ({| sl_st := st; sl_cache := cache; sl_fb := fb; sl_idx := 0 |}, con) x'.
 Proof. intros fuel_bp fuel_steps net tp tl rp fmax. exact (sl_timed_walk_trace fmax fuel_bp fuel_steps net tp tl rp). Qed.
